@@ -452,3 +452,18 @@ def mirror_config(cfg):
     d["y"] = [-v for v in d["y"]]
     out["det"] = d
     return out
+
+
+def guarded(fn):
+    """Documented solver failures (non-convergence) are not results: the case is recorded as skipped,
+    never as held; the harness turns too many skips into an inconclusive verdict."""
+    import functools
+
+    @functools.wraps(fn)
+    def wrapper(case):
+        from holopy.scattering.errors import MultisphereFailure, TmatrixFailure
+        try:
+            return fn(case)
+        except (MultisphereFailure, TmatrixFailure) as e:
+            return {"resid": {}, "flags": {}, "skipped": "solver_failure:" + type(e).__name__, "fmax": 0.0, "hptp": 0.0}
+    return wrapper
